@@ -15,18 +15,24 @@ KINDS = {"b": "KBool", "i": "KNumeric", "u": "KNumeric", "f": "KNumeric", "M": "
          "O": "KText", "S": "KText", "U": "KText"}
 
 
+def lab(x):
+    """A column label as text; labels that are not strings (the integers of a transposed frame) are kept apart
+    from the strings that look like them: 0 and '0' are different columns to pandas and to pdtable."""
+    return x if isinstance(x, str) else f"#{x}"
+
+
 def dtype_code(dt):
     k = getattr(dt, "kind", "?")
     return [KINDS.get(k, "KOther"), zlib.crc32(str(dt).encode()) % 100000]
 
 
 def df_state(df):
-    return [[str(c), dtype_code(df.dtypes.iloc[i])] for i, c in enumerate(df.columns)], bool(df.empty)
+    return [[lab(c), dtype_code(df.dtypes.iloc[i])] for i, c in enumerate(df.columns)], bool(df.empty)
 
 
 def observe(df, raised):
     info = getattr(df, "_table_data", None)
-    reg = [[str(k), str(v.unit)] for k, v in info.columns.items()] if info is not None else []
+    reg = [[lab(k), str(v.unit)] for k, v in info.columns.items()] if info is not None else []
     nolast = info is None or info._last_dataframe_state is None
     return [bool(raised), reg, bool(nolast)]
 
@@ -56,6 +62,7 @@ VAL_KINDS = ["float", "int", "text", "bool", "datetime"]
 ODD_KINDS = ["timedelta", "datetime_tz", "datetime_tz"]
 PHYS = ["m", "kg", "mm", "s"]
 CNAMES = ["a", "b", "c", "d", "e", "x1", "new"]
+CNAMES_X = CNAMES + ["1", 1]      # a label that is a number and the text that looks like it: two different columns
 
 
 def gen_case(rng, max_ops=8, type_changing=False):
@@ -80,15 +87,15 @@ def gen_case(rng, max_ops=8, type_changing=False):
 def gen_op(rng, type_changing=False):
     kinds_pool = VAL_KINDS + (ODD_KINDS if rng.random() < 0.2 else [])
     facade = [
-        lambda: {"op": "add_column", "col": rng.choice(CNAMES), "kind": rng.choice(kinds_pool),
+        lambda: {"op": "add_column", "col": rng.choice(CNAMES_X), "kind": rng.choice(kinds_pool),
                  "unit": rng.choice([None, None, "m", "text", "onoff", "kg", "-"])},
-        lambda: {"op": "setitem", "col": rng.choice(CNAMES), "kind": rng.choice(kinds_pool)},
+        lambda: {"op": "setitem", "col": rng.choice(CNAMES_X), "kind": rng.choice(kinds_pool)},
         lambda: {"op": "relabel", "pick": rng.randint(0, 9), "unit": rng.choice(PHYS + ["-"])},
         lambda: {"op": "consult"},
     ]
     direct = [
-        lambda: {"op": "df_set", "col": rng.choice(CNAMES), "kind": rng.choice(kinds_pool)},
-        lambda: {"op": "df_insert", "col": rng.choice(CNAMES), "kind": rng.choice(VAL_KINDS), "pos": rng.randint(0, 3)},
+        lambda: {"op": "df_set", "col": rng.choice(CNAMES_X), "kind": rng.choice(kinds_pool)},
+        lambda: {"op": "df_insert", "col": rng.choice(CNAMES_X), "kind": rng.choice(VAL_KINDS), "pos": rng.randint(0, 3)},
         lambda: {"op": "df_del", "pick": rng.randint(0, 9)},
         lambda: {"op": "df_rename_all", "shift": rng.randint(1, 3)},
         lambda: {"op": "df_loc_append", "foreign": rng.random() < 0.4},
@@ -156,7 +163,7 @@ def install_finalize_log():
             strict = False
         st, empty = df_state(self)
         ev = {"method": method, "nsrc": len(data), "strict": strict, "cols": st, "empty": empty,
-              "view": [[str(k), str(v.unit)] for k, v in data[0].columns.items()] if data else [],
+              "view": [[lab(k), str(v.unit)] for k, v in data[0].columns.items()] if data else [],
               "self_obj": self, "src_objs": [x for x in src if getattr(x, "_table_data", None) is not None]}
         FIN_LOG.append(ev)
         try:
@@ -340,8 +347,8 @@ class History:
             except Exception as e:
                 raised, exc = True, type(e).__name__
             st, empty = df_state(df)
-            d = next(dc for nm, dc in st if nm == col)
-            self._record(["OAdd", col, d, op.get("unit") if name == "add_column" else None, empty], raised, exc)
+            d = next(dc for nm, dc in st if nm == lab(col))
+            self._record(["OAdd", lab(col), d, op.get("unit") if name == "add_column" else None, empty], raised, exc)
             return
         if name == "relabel":
             col = self._pick(op["pick"])
@@ -350,7 +357,7 @@ class History:
             try:
                 colp = t[col]
             except Exception as e:
-                self._record(["ORelabel", str(col), op["unit"]], True, type(e).__name__)
+                self._record(["ORelabel", lab(col), op["unit"]], True, type(e).__name__)
                 return
             if colp.unit in ("text", "onoff"):
                 # relabelling a special unit through the setter is a pure metadata edit outside the
@@ -358,7 +365,7 @@ class History:
                 self._record(["OConsult"], False)
                 return
             colp.unit = op["unit"]
-            self._record(["ORelabel", str(col), op["unit"]], False)
+            self._record(["ORelabel", lab(col), op["unit"]], False)
             return
         if name == "consult":
             try:
